@@ -16,6 +16,37 @@ def Inv (rows0 : List Row) (s : St) : Prop :=
 theorem inv_init (rows0 : List Row) : Inv rows0 { rows := rows0 } := by
   refine ⟨fun row h _ => h, ?_, ?_, fun row h => h⟩ <;> intro q hq <;> simp at hq
 
+theorem inv_batch (rows0 : List Row) (s : St) (noConn : List Nat) (failed : List Req) (h : Inv rows0 s) :
+    Inv rows0 (step s (.batch noConn failed)) := by
+  obtain ⟨h1, h2, h3, h4⟩ := h
+  simp only [step]
+  refine ⟨?_, ?_, ?_, ?_⟩
+  · intro row hrow hn
+    rw [List.mem_filter]
+    refine ⟨h1 row hrow hn, ?_⟩
+    simp only [Bool.not_eq_true', List.contains_eq_mem, decide_eq_false_iff_not, List.mem_filter]
+    intro hm
+    exact hn (h3 row hm.1)
+  · intro q hqa
+    rcases h2 q hqa with hq | hq
+    · by_cases hp : (noConn.contains q.res || failed.contains q) = true
+      · left
+        exact List.mem_filter.mpr ⟨hq, hp⟩
+      · right
+        intro hm
+        have hd : q ∈ s.queue.filter fun r => !(noConn.contains r.res || failed.contains r) :=
+          List.mem_filter.mpr ⟨hq, by simpa using hp⟩
+        have := (List.mem_filter.mp hm).2
+        simp only [Bool.not_eq_true', List.contains_eq_mem, decide_eq_false_iff_not] at this hd
+        exact this hd
+    · right
+      intro hm
+      exact hq (List.mem_filter.mp hm).1
+  · intro q hqm
+    exact h3 q (List.mem_filter.mp hqm).1
+  · intro row hm
+    exact h4 row (List.mem_filter.mp hm).1
+
 theorem inv_step (rows0 : List Row) (s : St) (e : Ev) (h : Inv rows0 s) : Inv rows0 (step s e) := by
   obtain ⟨h1, h2, h3, h4⟩ := h
   cases e with
@@ -36,6 +67,7 @@ theorem inv_step (rows0 : List Row) (s : St) (e : Ev) (h : Inv rows0 s) : Inv ro
       rcases hq with hq | hq
       · exact Or.inl (h3 q hq)
       · exact Or.inr hq
+  | batch noConn failed => exact inv_batch rows0 s noConn failed ⟨h1, h2, h3, h4⟩
   | proc ok =>
     simp only [step]
     cases hq : s.queue with
@@ -149,6 +181,20 @@ theorem C11_eventually_exact (rows0 : List Row) (es : List Ev) (oks : List Bool)
     · exact h hm
   · intro ⟨hm, hn⟩
     exact h1 row hm hn
+
+/-- **one resource's outage costs the others nothing**: a batch in which some resources give no connection and
+    some deletes fail loses no accepted request and deletes no other row (the batch step is one of the events of
+    `C11_safety`); before the repair a request of a resource that had not had its turn was lost for good -/
+theorem C11_batch_loses_nothing (rows0 : List Row) (es : List Ev) (noConn : List Nat) (failed : List Req) :
+    let s := step (run { rows := rows0 } es) (.batch noConn failed)
+    ∀ q ∈ s.accepted, q ∈ s.queue ∨ q ∉ s.rows := by
+  have h := inv_step rows0 _ (.batch noConn failed) (inv_run rows0 { rows := rows0 } es (inv_init rows0))
+  exact h.2.1
+
+theorem C11_before_fix_batch_loses_a_request :
+    let s0 := run { rows := [⟨1, 7, 1⟩, ⟨2, 7, 1⟩] } [.accept ⟨1, 7, 1⟩, .accept ⟨2, 7, 1⟩]
+    let s := batchBeforeFix s0 [1, 2] [1]
+    (⟨2, 7, 1⟩ : Req) ∈ s.accepted ∧ (⟨2, 7, 1⟩ : Req) ∉ s.queue ∧ (⟨2, 7, 1⟩ : Row) ∈ s.rows := by decide
 
 /-! ### non-vacuity -/
 
